@@ -317,6 +317,26 @@ theorem C13_mean_var (vs : List Val) :
     field_simp
     ring
 
+/-! ## collapse is a function of its arguments (no hidden state) -/
+
+/-- **C13_history_independent** — in any history of `collapse` calls of one process, the result
+of a call (statistics and the names of the statistics variables) is the result of that call
+alone, whatever collapsers earlier calls were given.  (In the model this holds by construction:
+`runHistory` threads no state; the tie to the code is the history test of the harness.) -/
+theorem C13_history_independent (pre post : List Call) (c : Call) :
+    (runHistory (pre ++ c :: post))[pre.length]? = some (runCall c) := by
+  simp [runHistory]
+
+/-- **C13_collapser_default** — a call without user collapsers produces exactly `_mean`, `_std`,
+`_number`; a user entry replaces the statistic of the same name and leaves the other names and
+the defaults of other names untouched. -/
+theorem C13_collapser_default :
+    outNames [] = ["mean", "std", "number"] ∧
+    (∀ {α : Type} (d : List (String × α)) (k : String) (v : α), (upsert d k v).lookup k = some v) ∧
+    (∀ {α : Type} (d : List (String × α)) (k k2 : String) (v : α), k2 ≠ k →
+        (upsert d k v).lookup k2 = d.lookup k2) :=
+  ⟨by decide, fun d k v => lookup_upsert_self d k v, fun d k k2 v h => lookup_upsert_ne d k k2 v h⟩
+
 /-! ## expand -/
 
 /-- **C13_expand_spec** — on a valid dataset `expand` succeeds and returns one row per
@@ -391,5 +411,5 @@ example : (stat [some 1, none, some 3]).mean = some 2 ∧ (stat [some 1, none, s
 
 assert_axioms C13_compact_valid C13_compact_total C13_compact_expand C13_rows_injective C13_matrix_spec
   C13_collapse_spec C13_collapse_spec_second_reference C13_collapse_ok_inv C13_collapse_ok_ref_used
-  C13_partners_swap C13_mean_var
+  C13_partners_swap C13_mean_var C13_history_independent C13_collapser_default
   C13_expand_spec C13_expand_error C13_concat_expand C13_concat_valid C13_concatMixed_uniform
